@@ -246,7 +246,34 @@ def judge(pid, seed, tier):
                                     continue
                                 if r2[0] != "val" or abs(r2[1] - want) > 1e-7 * abs(want) + 1e-9 * min(mag, 1 + abs(want)):
                                     add(nm + ".score_per_obs", [h, a, y, z, c], [r, r2], "S(cy,cz) = c^h S(y,z)")
+        if pid in ("C14", "C04"):
+            # integer-typed observations with float predictions give the values of the same numbers as floats
+            yi = np.array([1, 2, 3, 5, 2], dtype=np.int64)
+            zf = np.array([1.5, 2.0, 2.5, 7.25, 0.5])
+            for cls, nm in ((HomogeneousExpectileScore, "HomogeneousExpectileScore"), (HomogeneousQuantileScore, "HomogeneousQuantileScore")):
+                for h in degs:
+                    for a in levels:
+                        tried += 1
+                        sf = cls(degree=h, level=a)
+                        ri = np.asarray(sf.score_per_obs(yi, zf), dtype=float)
+                        rf = np.asarray(sf.score_per_obs(yi.astype(float), zf), dtype=float)
+                        if not np.allclose(ri, rf, rtol=1e-12, atol=1e-12, equal_nan=True):
+                            add(nm + ".score_per_obs", dict(degree=h, level=a, y_int64=yi.tolist(), z=zf.tolist()), [ri.tolist(), rf.tolist()],
+                                "integer-typed observations give the same scores as the same numbers as floats")
         if pid == "C14":
+            # the closed forms at degrees 0 and 1 are the limits of the general formula
+            for y, z in itertools.product([0.5, 1.0, 2.0, 3.5], [0.5, 1.0, 2.0, 3.5]):
+                for a in levels:
+                    for cls, nm, h0s in ((HomogeneousExpectileScore, "HomogeneousExpectileScore", (0.0, 1.0)), (HomogeneousQuantileScore, "HomogeneousQuantileScore", (0.0,))):
+                        for h0 in h0s:
+                            tried += 1
+                            r0 = real(lambda: cls(degree=h0, level=a).score_per_obs([y], [z]))
+                            rp = real(lambda: cls(degree=h0 + 1e-6, level=a).score_per_obs([y], [z]))
+                            rm = real(lambda: cls(degree=h0 - 1e-6, level=a).score_per_obs([y], [z]))
+                            if r0[0] == "val" and rp[0] == "val" and rm[0] == "val":
+                                lim = 0.5 * (rp[1] + rm[1])
+                                if abs(lim - r0[1]) > 1e-4 * (1 + abs(r0[1])):
+                                    add(nm + ".score_per_obs", [h0, a, y, z], [r0, rm, rp], f"the closed form at degree {h0} is the limit of the general formula")
             for y, z in itertools.product(pts, pts):
                 for nmd, sf, ref in (("SquaredError", SquaredError(), HomogeneousExpectileScore(2, 0.5)), ("PoissonDeviance", PoissonDeviance(), HomogeneousExpectileScore(1, 0.5)),
                                      ("GammaDeviance", GammaDeviance(), HomogeneousExpectileScore(0, 0.5)), ("PinballLoss", PinballLoss(0.3), HomogeneousQuantileScore(1, 0.3))):
